@@ -358,12 +358,25 @@ func cacheChildMain() {
 // ---- running children -----------------------------------------------------------------------------
 
 type cacheChildRes struct {
-	out    []string
-	stderr string
-	err    error
+	out     []string
+	stderr  string
+	err     error
+	retried bool // the first attempt ran into the time limit
 }
 
+// cacheRunChild: a child that does not finish in time is run once more with a longer limit before it is called a
+// hang (a loaded machine and a deadlock look the same after 120 s; only the second is reproducible).
 func cacheRunChild(bin string, spec cacheSpec) cacheChildRes {
+	r := cacheRunChildOnce(bin, spec, 120*time.Second)
+	if r.err != nil && r.err.Error() == "timeout" {
+		r2 := cacheRunChildOnce(bin, spec, 360*time.Second)
+		r2.retried = true
+		return r2
+	}
+	return r
+}
+
+func cacheRunChildOnce(bin string, spec cacheSpec, limit time.Duration) cacheChildRes {
 	in, _ := json.Marshal(spec)
 	cmd := exec.Command(bin)
 	cmd.Env = append(os.Environ(), cacheChildEnv+"=1")
@@ -378,7 +391,7 @@ func cacheRunChild(bin string, spec cacheSpec) cacheChildRes {
 	var werr error
 	select {
 	case werr = <-done:
-	case <-time.After(120 * time.Second):
+	case <-time.After(limit):
 		_ = cmd.Process.Kill()
 		<-done
 		return cacheChildRes{stderr: se.String(), err: fmt.Errorf("timeout")}
@@ -444,6 +457,9 @@ func (e *cacheEngine) violate(oracle, key, detail, line string) {
 
 // childFailed reports a child that crashed / hung; returns true when the result cannot be used.
 func (e *cacheEngine) childFailed(r cacheChildRes, what string) bool {
+	if r.retried {
+		e.ctx.Res.Count("cache.child.slow-first-attempt")
+	}
 	if r.err == nil {
 		return false
 	}
@@ -582,6 +598,11 @@ func (e *cacheEngine) buildMessages() {
 		if err != nil {
 			ctx.Res.Fail("cache: render: " + err.Error())
 			v = "?"
+		}
+		// the children rebuild the message from the spec: the populator must be a function of the seed, or its
+		// own nondeterminism would be reported as order dependence of the library
+		if v2, _ := s.Render(cacheBuildMsg(s, ms).x, s.Dyns[m.tg.dyn].Kind); v2 != v {
+			ctx.Res.Fail("cache: the message populator is not deterministic (harness defect, not a library finding): " + firstDiff(v, v2))
 		}
 		// the replay path parses values back from their line syntax: check it on every generated value
 		if back, perr := parseVal(s, v, m.tg.ty, s.Dyns[m.tg.dyn].Kind); perr != nil {
@@ -1661,7 +1682,8 @@ func cacheRaceBinary() (path, note, fail string) {
 	modDir, repoDir := cacheDirs()
 	binDir := os.Getenv("VERIF_BIN_DIR")
 	if binDir == "" {
-		binDir = "/verif/.work/bin"
+		// next to the harness module: <tree>/.work/bin (never another tree's cache)
+		binDir = filepath.Join(filepath.Dir(modDir), ".work", "bin")
 	}
 	_ = os.MkdirAll(binDir, 0o755)
 	// a mutant under test (bin/mutate.sh: GOFLAGS=… -overlay=<json>) must be in the race build too
